@@ -122,7 +122,7 @@ struct ApiRun {
     // Every real API call goes through api(): event accounting, the global-state monitors (locale, rounding mode), and --
     // in fault-enumeration runs (C17) -- the loop "fail the k-th allocation, k = 1, 2, ... until the fault no longer fires".
     // 'f' must be re-invocable: a failed attempt has to leave everything unchanged, which is the property under test.
-    enum { A_PLAIN = 0, A_ITER = 1, A_NOENUM = 2 };
+    enum { A_PLAIN = 0, A_ITER = 1, A_NOENUM = 2, A_REPEATABLE = 4 };   // A_REPEATABLE: read-only call whose outputs are rebuilt by every invocation
     long enum_steps = 0;
     bool disk_plan_active = false;
     bool absorbed_pending = false;        // a call completed normally although an allocation failed: compare dumps after the op
@@ -157,12 +157,23 @@ template <class F> int ApiRun::api(const char *fn, F f, int flags) {
         // completes normally; it counts as the unfaulted execution and is judged by the model like any other call (with a
         // full dump comparison right after the op, so that a swallowed failure with a partial effect is caught).
         // To reach allocation sites beyond an absorbed one, some walks start at a later k.
+        std::vector<std::pair<int, long>> absorbed_rcs;
         long k0 = 1;
         if (((h >> 9) % 3) == 0) k0 = 1 + (long) skip.below(sq ? 150 : 40);
         for (long k = k0; k < 100000; ) {
             A.arm(k); int rc = f(); bool fired = A.fired; A.disarm();
             env_check(fn, loc0, rnd0);
-            if (!fired) return rc;
+            if (!fired) {
+                for (auto &ar : absorbed_rcs) if (ar.first != rc) violate("code", strprintf("%s:absorbed:%s!=%s", fn, rc_name(ar.first), rc_name(rc)), strprintf("%s returned %s when allocation #%ld failed, but %s when no allocation failed: a failed allocation must lead to CIF_MEMORY_ERROR or CIF_ERROR, or be absorbed without any effect on the result", fn, rc_name(ar.first), ar.second, rc_name(rc)));
+                absorbed_rcs.clear();
+                return rc;
+            }
+            if (rc != CIF_MEMORY_ERROR && rc != CIF_ERROR && (flags & A_REPEATABLE)) {
+                // the call can simply be made again: remember the code this attempt produced (it must equal the code of the unfaulted
+                // execution, checked below) and go on to the next allocation site
+                g_stats.inc(sq ? "fault.alloc_sqlite.absorbed" : "fault.alloc_libcif.absorbed"); ev("%s: %s allocation failure #%ld absorbed -> %s (continuing)", fn, sq ? "storage-engine" : "library", k, rc_name(rc));
+                tx_check(fn, rc, k, sq); absorbed_rcs.push_back({rc, k}); ++enum_steps; k = next_k(k, cfg.quick, skip); continue;
+            }
             if (rc != CIF_MEMORY_ERROR && rc != CIF_ERROR) { g_stats.inc(sq ? "fault.alloc_sqlite.absorbed" : "fault.alloc_libcif.absorbed"); absorbed_pending = true; ev("%s: %s allocation failure #%ld absorbed -> %s", fn, sq ? "storage-engine" : "library", k, rc_name(rc)); tx_check(fn, rc, k, sq); return rc; }
             ++enum_steps;
             bool do_dump = (k <= 3) || ((k & (k - 1)) == 0) || (!cfg.quick && (k % 8 == 0));
